@@ -60,7 +60,8 @@ CONSTANTS Rcpts,      \* recipient identities used, subset of {"ra","rb","rc"}
           Lmtps,      \* protocols explored: subset of BOOLEAN (TRUE = LMTP)
           Holds,      \* subset of BOOLEAN; TRUE = another session holds the only permit of the
                       \* sender domain src.example for the whole conversation (source concurrency 1)
-          Fails,      \* failure classes the environment may choose, subset of {"temp","perm"}
+          Fails,      \* failure classes the environment may choose, subset of {"temp","perm","unspec"}
+                      \* (annotated temporary / annotated permanent / no annotation at all)
           MaxFaults,  \* faults per behaviour
           MaxCmds,    \* commands per behaviour
           Allowed,    \* client alphabet: {"*"} = everything, else tokens "VERB:arg" (focused generation)
